@@ -14,11 +14,19 @@ import common  # noqa: E402
 def main():
     t = common.Timer()
     rc = 0
-    try:
-        import setup_steps
-        rc = setup_steps.run()
-    except ModuleNotFoundError:
-        pass
+    # every check module may expose gen(): its translator part
+    import importlib
+    import pkgutil
+    import checks
+    for m in sorted(x.name for x in pkgutil.iter_modules(checks.__path__)):
+        try:
+            mod = importlib.import_module("checks." + m)
+            if hasattr(mod, "gen"):
+                mod.gen()
+            if hasattr(mod, "setup"):
+                mod.setup()
+        except Exception as e:  # a broken translator is reported by the check itself
+            print("setup: %s: %s" % (m, e), file=sys.stderr)
     ok, log = common.coq_make(None, keep_going=True)
     if not ok:
         sys.stderr.write(log[-4000:])
